@@ -1449,7 +1449,8 @@ impl Linearizer {
         constraints: Vec<Constraint>,
         mut domain: IndexMap<String, DomainVariable>,
     ) -> Self {
-        let bounds = BoundsAnalyzer::analyze(&domain, &normalized_for_bounds(&constraints));
+        let bounds =
+            BoundsAnalyzer::analyze(&domain, &normalized_for_bounds(&constraints)).enforceable(&domain);
         bounds.apply_to_domain(&mut domain);
         Self::new_from_with_bounds(constraints, domain, bounds)
     }
@@ -1545,7 +1546,8 @@ impl Linearizer {
     /// * `Err(LinearizationError)` - If linearization fails
     pub fn linearize(model: Model) -> Result<LinearModel, LinearizationError> {
         let (objective, constraints, mut domain) = model.into_components();
-        let bounds = BoundsAnalyzer::analyze(&domain, &normalized_for_bounds(&constraints));
+        let bounds =
+            BoundsAnalyzer::analyze(&domain, &normalized_for_bounds(&constraints)).enforceable(&domain);
         bounds.apply_to_domain(&mut domain);
         let mut context = Linearizer::new_from_with_bounds(constraints, domain, bounds);
         let objective_type = objective.objective_type.clone();
